@@ -240,7 +240,7 @@ std::string do_pblocks(long long bs, long long n)
 #define C01_BS(B) \
   if (bs == B)    \
     return do_pblocks_bs<B, T>(n);
-  C01_BS(1) C01_BS(2) C01_BS(3) C01_BS(7) C01_BS(16) C01_BS(100) C01_BS(255) C01_BS(256) C01_BS(4096) C01_BS(65536)
+  C01_BS(1) C01_BS(2) C01_BS(3) C01_BS(7) C01_BS(16) C01_BS(100) C01_BS(255) C01_BS(256) C01_BS(4096) C01_BS(32767) C01_BS(65536)
   C01_BS(1073741824)
 #undef C01_BS
   return "bad-bs";
